@@ -1,0 +1,36 @@
+//go:build verif
+
+// Package verifhook re-exports internal seams for the deterministic-simulation
+// harness that lives outside this module. It is compiled only with the build
+// tag `verif` and adds no behaviour.
+package verifhook
+
+import (
+	"github.com/aptpod/iscp-go/internal/retry"
+	"github.com/aptpod/iscp-go/internal/segment"
+)
+
+// SetRetryJitter replaces the jitter source of internal/retry.
+func SetRetryJitter(f func() float64) (restore func()) { return retry.VerifSetRandFloat64(f) }
+
+// SegmentSender is internal/segment.Sender.
+type SegmentSender = segment.Sender
+
+// SegmentReadBuffers is internal/segment.ReadBuffers.
+type SegmentReadBuffers = segment.ReadBuffers
+
+// SegmentReadBuffer is internal/segment.ReadBuffer.
+type SegmentReadBuffer = segment.ReadBuffer
+
+// SegmentSendTo is internal/segment.SendTo.
+func SegmentSendTo(wr SegmentSender, seqNum uint32, msgPayload []byte) (int, error) {
+	return segment.SendTo(wr, seqNum, msgPayload)
+}
+
+// SetSegmentMaxPayloadSize replaces the segment payload size.
+func SetSegmentMaxPayloadSize(size int) (restore func()) {
+	return segment.VerifSetMaxPayloadSize(size)
+}
+
+// SegmentMaxPayloadSize returns the current segment payload size.
+func SegmentMaxPayloadSize() int { return segment.VerifMaxPayloadSize() }
